@@ -1,3 +1,3 @@
 """Sidecar contracts, one module per source module / theme.  Importing this package
 registers every contract in pyvc.contract.REGISTRY."""
-from . import typed_queries, node_queries, lookups, callbacks, registry, mutators, lemmas  # noqa: F401
+from . import typed_queries, node_queries, lookups, callbacks, registry, mutators, lemmas, traversal, serial  # noqa: F401
